@@ -46,7 +46,9 @@ var c08subSecond = []string{"y", ".", "x", "missing", "../f", "..", "y/../../f",
 
 // helper -> the Step kinds that invoke it
 // c08chmodModes: plain permission bits, and modes carrying the special bits Chmod may set.
-var c08chmodModes = []uint32{0o604, uint32(os.ModeSticky) | 0o755, uint32(os.ModeSetuid) | 0o700, uint32(os.ModeSetuid|os.ModeSticky) | 0o751}
+var c08chmodModes = []uint32{0o604, uint32(os.ModeSticky) | 0o755, uint32(os.ModeSetuid) | 0o700, uint32(os.ModeSetuid|os.ModeSticky) | 0o751,
+	// the permission bits the targets already have, with a special bit more or less (f: 0644, d/e/sp: 0755, spd: 0777)
+	uint32(os.ModeSticky) | 0o644, uint32(os.ModeSetgid) | 0o755, 0o755, 0o777}
 
 func c08step(helper, target string, variant ...int) fsx.Step {
 	st := fsx.Step{K: helper, P: target, Perm: 0o640, Data: "payload-" + helper, MTime: 1_600_000_000}
